@@ -561,8 +561,17 @@ class Generator:
                 node = node.setdefault(('mod', m), {})
             node.setdefault('items', []).append(it)
 
+        def visible(it):
+            # `scope=REGEX` (entry option, or file-level `//! scope REGEX` default): the entry is emitted only in
+            # its own unit and in units whose name matches; keeps large trait-impl families (ops) out of
+            # unrelated units' files and lets two units state different contracts for one external-trait impl
+            sc = it.entry.opts.get('scope')
+            if sc is None or it.entry.unit == unit:
+                return True
+            return re.fullmatch(sc, unit) is not None
+
         def emit_node(node, depth):
-            its = node.get('items', [])
+            its = [it for it in node.get('items', []) if visible(it)]
             # variants: several overlay entries (different units) for one function
             groups = {}
             for it in its:
